@@ -88,6 +88,8 @@ static CO_ERR COTNmtHbConsRead(struct CO_OBJ_T *obj, struct CO_NODE_T *node, voi
         value |= ((uint32_t)(hbc->NodeId)) << 16;
         if (size == COT_ENTRY_SIZE) {
             *((uint32_t *)buffer) = value;
+        } else {
+            result = CO_ERR_BAD_ARG;
         }
     }
     return (result);
